@@ -93,17 +93,66 @@ def rule_b(prog, rep):
     rep.floor('C06.b', n, 4, 'queue access sites')
     # retain removes exactly the leaving client
     f = crate.fn(f'{LOCK}::release')
+    fb = Bindings(crate, f)
     ret = [nd for nd, a in crate.walk_fn(f) if nd.get('k') == 'call' and short(callee(nd)) == 'retain']
-    good = False
-    if len(ret) == 1:
-        for a in ret[0]['args']:
-            if a.get('k') == 'closure':
-                body = crate.closure(a['def'])
-                good = any(x.get('k') == 'binary' and x.get('op') == 'Ne' and 'client_id' in str(x)[:600] for x, _ in walk(body.hir))
+    good = len(ret) == 1 and _id_predicate(crate, fb, ret[0]) == 'Ne'
     if good:
-        rep.ok('C06.b', 'Lock::release:retain', loc(f, ret[0]), 'drops the entries of the leaving client only (c != client_id)')
+        rep.ok('C06.b', 'Lock::release:retain', loc(f, ret[0]), 'drops the entries of the leaving client only (entry id != client_id)')
     else:
-        rep.violation('C06.b', 'Lock::release:retain', f.loc, 'the queue filter is not `c != client_id`', key='C06.b/release/retain')
+        rep.violation('C06.b', 'Lock::release:retain', f.loc, 'the queue filter is not `entry id != client_id`', key='C06.b/release/retain')
+    # queue: a repeated request joins the client's own entry in place, a first request goes to the back
+    q = crate.fn(f'{LOCK}::queue')
+    qb = Bindings(crate, q)
+    finds = [nd for nd, a in crate.walk_fn(q) if nd.get('k') == 'call' and short(callee(nd)) in ('find', 'position', 'find_map')]
+    problems = []
+    if len(finds) != 1 or _id_predicate(crate, qb, finds[0]) != 'Eq':
+        problems.append("the existing entry is not looked up by `entry id == client_id`")
+    pb = [nd for nd, a in crate.walk_fn(q) if nd.get('k') == 'call' and short(callee(nd)) == 'push_back']
+    if len(pb) != 1:
+        problems.append(f'{len(pb)} push_back sites')
+    else:
+        tup = pb[0]['args'][1]
+        while tup.get('k') in ('ref',):
+            tup = tup['e']
+        if tup.get('k') != 'tuple' or qb.origins(tup['elems'][0]) != {'param(client_id)'} or \
+                not any(x.get('k') == 'path' and qb.origins(x) == {'param(tx)'} for x, _ in walk(tup['elems'][1])):
+            problems.append('a new entry is not (client_id, [tx])')
+        g = [it for it in guards(next(a for nd, a in crate.walk_fn(q) if nd is pb[0]) + (pb[0],)) if it[0] == 'if']
+        if not any(it[2] is False and any(x is finds[0] for x, _ in walk(it[1])) for it in g) if finds else True:
+            problems.append('push_back is not on the not-yet-queued edge')
+    pu = [(nd, a) for nd, a in crate.walk_fn(q) if nd.get('k') == 'call' and short(callee(nd)) == 'push' and 'Vec' in callee(nd)]
+    if len(pu) != 1 or qb.origins(pu[0][0]['args'][1]) != {'param(tx)'} or \
+            not all('find' in x or 'position' in x for x in qb.origins(pu[0][0]['args'][0])):
+        problems.append("a repeated request does not add its sender to the client's existing entry in place")
+    if problems:
+        rep.violation('C06.b', 'Lock::queue', q.loc, '; '.join(problems), key='C06.b/queue/' + '|'.join(problems))
+    else:
+        rep.ok('C06.b', 'Lock::queue', q.loc, "existing entry (id == client_id): sender appended in place; otherwise push_back((client_id, [tx]))")
+
+
+def _id_predicate(crate, b, call):
+    """the closure given to retain / find compares an id of the visited entry with the client_id parameter: 'Eq' | 'Ne' | None"""
+    cl = [a for a in call['args'] if a.get('k') == 'closure']
+    if len(cl) != 1:
+        return None
+    body = crate.closure(cl[0]['def']).hir
+    while body.get('k') == 'block' and not body.get('stmts') and 'tail' in body:
+        body = body['tail']
+    neg = False
+    while body.get('k') == 'unary' and body.get('op') == 'Not':
+        neg = not neg
+        body = body['e']
+    if body.get('k') != 'binary' or body.get('op') not in ('Eq', 'Ne'):
+        return None
+    lo, ro = b.origins(body['l']), b.origins(body['r'])
+    cid = {'param(client_id)'}
+    entry = lambda o: bool(o) and o != cid and all(x.startswith('param') for x in o)   # noqa: E731
+    if not ((lo == cid and entry(ro)) or (ro == cid and entry(lo))):
+        return None
+    op = body['op']
+    if neg:
+        op = 'Ne' if op == 'Eq' else 'Eq'
+    return op
 
 
 def _is_was_holder(b, nd):
